@@ -40,6 +40,48 @@ import (
 
 const scratch = "/tmp/c02-scratch"
 
+var (
+	reDate = regexp.MustCompile(`D:\d{14}`)
+	reID   = regexp.MustCompile(`/ID\s*\[\s*<[0-9A-Fa-f]+>\s*<[0-9A-Fa-f]+>\s*\]`)
+)
+
+// pdfcpu stamps every output with the current time (CreationDate/ModDate) and a fresh document ID:
+// two runs of one operation differ in exactly these bytes.  Outputs are compared modulo them.
+func normPDF(b []byte) []byte {
+	b = reDate.ReplaceAll(b, []byte("D:00000000000000"))
+	return reID.ReplaceAll(b, []byte("/ID[<00><00>]"))
+}
+
+// pdfcpu's object numbering also depends on Go map iteration order, so two runs of one operation are
+// not byte-identical.  "The complete output" therefore means: identical to the reference run modulo
+// time stamps/ID, or — a complete PDF (ends in %%EOF, validates) with the page count of the reference
+// run and its length up to the width of renumbered object references.
+func sameOutput(b, ref []byte) bool {
+	if ref == nil {
+		return false
+	}
+	if bytes.Equal(b, ref) || bytes.Equal(normPDF(b), normPDF(ref)) {
+		return true
+	}
+	if !bytes.HasPrefix(ref, []byte("%PDF-")) || !bytes.HasPrefix(b, []byte("%PDF-")) {
+		return false
+	}
+	if !bytes.HasSuffix(bytes.TrimRight(b, "\r\n"), []byte("%%EOF")) {
+		return false
+	}
+	if d := len(b) - len(ref); d > 64 || d < -64 {
+		return false
+	}
+	conf := model.NewDefaultConfiguration()
+	conf.UserPW, conf.OwnerPW = "user", "owner"
+	if err := api.Validate(bytes.NewReader(b), conf); err != nil {
+		return false
+	}
+	nb, err1 := api.PageCount(bytes.NewReader(b), conf)
+	nr, err2 := api.PageCount(bytes.NewReader(ref), conf)
+	return err1 == nil && err2 == nil && nb == nr
+}
+
 // model path ids of the fixed names
 var pathID = map[string]int{"in.pdf": 2, "out.pdf": 3, "in2.pdf": 4, "other.dat": 5, "att.txt": 6}
 
@@ -58,17 +100,25 @@ type op struct {
 
 func p(dir, n string) string { return filepath.Join(dir, n) }
 
+// no object streams / xref streams: the time stamps and the document ID stay plain text (see normPDF)
+func conf() *model.Configuration {
+	c := model.NewDefaultConfiguration()
+	c.WriteObjectStream = false
+	c.WriteXRefStream = false
+	return c
+}
+
 func encConf() *model.Configuration { return model.NewAESConfiguration("user", "owner", 256) }
 
 func ops() []op {
 	return []op{
 		{name: "optimize-inplace", proto: "api:flag:2:2:-", dest: "in.pdf", fin: "ok", noOut: true,
-			run: func(d string) error { return api.OptimizeFile(p(d, "in.pdf"), "", nil) }},
+			run: func(d string) error { return api.OptimizeFile(p(d, "in.pdf"), "", conf()) }},
 		{name: "rotate-existing", proto: "api:flag:2:2:3", dest: "out.pdf", fin: "ok",
-			run: func(d string) error { return api.RotateFile(p(d, "in.pdf"), p(d, "out.pdf"), 90, nil, nil) }},
+			run: func(d string) error { return api.RotateFile(p(d, "in.pdf"), p(d, "out.pdf"), 90, nil, conf()) }},
 		{name: "mergeappend-existing", proto: "api:flag:-:-:3", dest: "out.pdf", fin: "ok", outPDF: true,
 			run: func(d string) error {
-				return api.MergeAppendFile([]string{p(d, "in2.pdf")}, p(d, "out.pdf"), false, nil)
+				return api.MergeAppendFile([]string{p(d, "in2.pdf")}, p(d, "out.pdf"), false, conf())
 			}},
 		{name: "writereader-existing", proto: "pdf:none:-:3", dest: "out.pdf", fin: "ok",
 			run: func(d string) error {
@@ -77,18 +127,18 @@ func ops() []op {
 		{name: "encrypt-inplace", proto: "api:flag:2:2:-", dest: "in.pdf", fin: "ok", enc: true, noOut: true,
 			run: func(d string) error { return api.EncryptFile(p(d, "in.pdf"), "", encConf()) }},
 		{name: "optimize-corrupt-inplace", proto: "api:flag:2:2:-", dest: "in.pdf", fin: "err", corrupt: true, noOut: true,
-			run: func(d string) error { return api.OptimizeFile(p(d, "in.pdf"), "", nil) }},
+			run: func(d string) error { return api.OptimizeFile(p(d, "in.pdf"), "", conf()) }},
 		// thorough only from here
 		{name: "watermark-inplace", proto: "api:flag:2:2:-", dest: "in.pdf", fin: "ok", noOut: true,
 			run: func(d string) error {
-				return api.AddTextWatermarksFile(p(d, "in.pdf"), "", nil, true, "Draft", "fo:Courier, scale:.9, op:.6", nil)
+				return api.AddTextWatermarksFile(p(d, "in.pdf"), "", nil, true, "Draft", "fo:Courier, scale:.9, op:.6", conf())
 			}},
 		{name: "attach-inplace", proto: "api:flag:2:2:-", dest: "in.pdf", fin: "ok", noOut: true,
 			run: func(d string) error {
-				return api.AddAttachmentsFile(p(d, "in.pdf"), "", []string{p(d, "att.txt")}, false, nil)
+				return api.AddAttachmentsFile(p(d, "in.pdf"), "", []string{p(d, "att.txt")}, false, conf())
 			}},
 		{name: "trim-existing", proto: "api:flag:2:2:3", dest: "out.pdf", fin: "ok",
-			run: func(d string) error { return api.TrimFile(p(d, "in.pdf"), p(d, "out.pdf"), []string{"1"}, nil) }},
+			run: func(d string) error { return api.TrimFile(p(d, "in.pdf"), p(d, "out.pdf"), []string{"1"}, conf()) }},
 		{name: "copyfile-existing", proto: "pdf:none:2:3", dest: "out.pdf", fin: "ok",
 			run: func(d string) error { _, err := pdfcpu.CopyFile(p(d, "in.pdf"), p(d, "out.pdf"), true); return err }},
 		{name: "writecontext-existing", proto: "pdf:flag:-:3", dest: "out.pdf", fin: "ok",
@@ -108,7 +158,7 @@ func ops() []op {
 				if err != nil {
 					return err
 				}
-				cmd := &cli.Command{InFile: &in, OutFile: &out, Watermark: wm, Conf: model.NewDefaultConfiguration()}
+				cmd := &cli.Command{InFile: &in, OutFile: &out, Watermark: wm, Conf: conf()}
 				_, err = cli.AddWatermarks(cmd)
 				return err
 			}},
@@ -528,7 +578,7 @@ type dirState struct {
 }
 
 func (h *harness) isNew(o op, b []byte, ref []byte, path string) bool {
-	if ref != nil && bytes.Equal(b, ref) {
+	if sameOutput(b, ref) {
 		return true
 	}
 	if !o.enc {
